@@ -274,7 +274,7 @@ NS = len(specs())
 GENS = {
     "curves": Gen(case_curves, NS * len(FORMS) * 4, NS * len(FORMS) * 4,
                   exhaustive=True),
-    "random-points": Gen(case_random_points, 150, 30000),
+    "random-points": Gen(case_random_points, 150, 60000),
 }
 MIN_EVALS = {"ser-formula": 5000, "ber-bounds": 5000, "monotone-in-snr": 2000,
              "per-se-relations": 5000, "psk-craig-bounds": 200,
